@@ -319,7 +319,7 @@ func main() {
 			"date":  {"2024-02-29", "20240229", "123456789-12-31", "1234567891231"},
 			"roman": {"MMMCMXCIX", "mmmdccclxxxviii", "MDCCCCLXXXXVIIII"},
 			"sem":   {"v1.2.3-rc.1+build.5", "18446744073709551615.0.0-a.b", "1.0.0-0.3.7+exp.sha.5114f85"},
-			"size":  {"1 024 KiB", `{"value":1,"unit":"KiB","x":[1,{"a":null}]}`, `"18 446 744 073 709 551 615 B"`, "16EiB"},
+			"size":  {"1 024 KiB", `{"value":1,"unit":"KiB","x":[1,{"a":null}]}`, `"18 446 744 073 709 551 615 B"`, "16EiB", `{"x":[[1],2],"value":1,"unit":"KiB"}`, `{"y":{"a":[[],{}]},"unit":"B","value":0}`},
 			"uu":    {"urn:uuid:ed7059f3-6fc0-4b0c-9b7a-2ea5a0b4b8f1", "URN:uuid:ED7059F3-6FC0-4B0C-9B7A-2EA5A0B4B8F1", "ed7059f3-6fc0-4b0c-9b7a-2ea5a0b4b8f1"},
 		}
 		for _, mode := range []int{0, 1, 3} {
@@ -354,6 +354,30 @@ func main() {
 					}
 				})
 				r.Serial(func(w *mc.W) { w.Outcome("substrings") })
+				reset()
+			})
+		}
+		// 1-deviation mutants of the valid texts (all 256 byte values substituted / inserted at every position, every deletion)
+		for _, mode := range []int{0, 1} {
+			mode := mode
+			r.Phase(fmt.Sprintf("1-deviation mutants (all 256 byte values) of the valid texts into every one-input entry point x rule subsets, limit mode %d", mode), "complete for 1 deviation", func() {
+				setLimits(mode)
+				r.Parallel(int64(len(entries)), 1, func(w *mc.W, ei int64) {
+					e := entries[ei]
+					for _, v := range valids[e.pkg] {
+						mc.Mutations1([]byte(v), mc.AllBytes, func(m []byte) {
+							for _, rule := range e.rules {
+								if len(e.rules) > 8 && rule != 0 && rule != 6 && rule != 14 && rule != 15 && rule != -1 {
+									continue
+								}
+								w.Point()
+								w.NonTrivial()
+								p1.Do(w, oneArg{Entry: int(ei), Name: e.name, Rule: rule, Limit: mode, In: mc.Bin(m)})
+							}
+						})
+					}
+				})
+				r.Serial(func(w *mc.W) { w.Outcome("mutants") })
 				reset()
 			})
 		}
